@@ -362,7 +362,7 @@ func checkC10(c *Check, p *Program) {
 			return
 		}
 		switch {
-		case builtinName(ci) == "close" && chanField(ci.Common().Args[0]) == a.done:
+		case builtinName(ci) == "close" && chanIs(ci.Common().Args[0], a.done):
 			closeDone = in
 		case funcIs(calleeObj(ci), "sync", "WaitGroup", "Wait") && fieldOfAddr(callRecv(ci)) == a.wait:
 			waitCall = in
@@ -600,7 +600,7 @@ func checkC10(c *Check, p *Program) {
 					if lp != nil && cases[i].Body != nil {
 						leaves = !reachableFrom(cases[i].Body, nil)[lp.Header]
 					}
-					if chanField(st.Chan) == a.done && leaves {
+					if chanIs(st.Chan, a.done) && leaves {
 						exit = "case <-Tunnel.done leaves"
 					}
 					if tm := timerOf(st.Chan); tm != nil && tm.Kind == "after" && leaves {
@@ -663,8 +663,8 @@ func checkC10(c *Check, p *Program) {
 		if op.Kind != "send" && op.Kind != "sel-send" {
 			continue
 		}
-		if !recvTypeIs(op.Fn, knxPath, "Tunnel") {
-			continue
+		if !recvTypeIs(op.Fn, knxPath, "Tunnel") && !(op.ViaParam != nil && op.Field != nil && closedFields[op.Field]) {
+			continue // (a helper shared with the router, handed one of the tunnel's closed channels, counts)
 		}
 		closed := op.Field != nil && closedFields[op.Field]
 		var ch ssa.Value = op.Chan
@@ -689,7 +689,7 @@ func checkC10(c *Check, p *Program) {
 			continue
 		}
 		nSend++
-		roots := cg.rootsOf(op.Fn)
+		roots := cg.rootsOfOp(op)
 		inCloser := len(roots) > 0
 		for _, r := range roots {
 			if !(r.Kind == "go" && r.Fn == t.serve) {
